@@ -145,18 +145,22 @@ func (h *legacyHandler) onResourcePackResponseLocked(
 	var queued *Info
 	if peek {
 		queued, _ = h.outstandingPacks.Front()
-	} else {
+	} else if h.outstandingPacks.Len() > 0 {
 		queued = h.outstandingPacks.PopFront()
 	}
 
-	e := newPlayerResourcePackStatusEvent(h.player, bundle.Status, bundle.ID, *queued)
-	event.FireParallel(h.eventMgr, e, func(e *PlayerResourcePackStatusEvent) {
-		if shouldDisconnectForForcePack(e) {
-			h.player.Disconnect(&component.Translation{
-				Key: "multiplayer.requiredTexturePrompt.disconnect",
-			})
-		}
-	})
+	// The client may respond without a queued pack (e.g. a response that arrives
+	// after the queue was flushed); there is no pack to fire the status event for then.
+	if queued != nil {
+		e := newPlayerResourcePackStatusEvent(h.player, bundle.Status, bundle.ID, *queued)
+		event.FireParallel(h.eventMgr, e, func(e *PlayerResourcePackStatusEvent) {
+			if shouldDisconnectForForcePack(e) {
+				h.player.Disconnect(&component.Translation{
+					Key: "multiplayer.requiredTexturePrompt.disconnect",
+				})
+			}
+		})
+	}
 
 	switch bundle.Status {
 	case AcceptedResponseStatus:
